@@ -7,6 +7,9 @@ CLAIMED = {
  'C01': ('3.1', 'end-to-end symbolic execution of the real segno.make on content whose bytes are free 8-bit variables (forking on mode detection, if-converted Reed-Solomon), ISO reference reader on the symbolic matrix, per-byte equalities decided by z3',
          'For every listed shape (version, level, mask, mode, eci, encoding, micro, boost, part structure, content length) z3 shows for ALL byte values of the content that the ISO reader recovers exactly the given bytes, that the mode indicator equals QRCode.mode, that the ECI header is present exactly when required with the ISO number and that level/mask/version in the symbol equal the reported ones. Text goes through a codec stub (arbitrary bytes or UnicodeError per codec), integers through symbolic digits.',
          'trusted: /verif/ref/decoder.py, layout.py, iso_tables.py (ECI register numbers), CPython codecs, z3; content lengths are the listed ones, automatic mask selection is not on this path (C06)'),
+ 'C06': ('3.6', 'symbolic execution of the real mask closures (bit-vector coordinates), apply_mask on free encoding regions, mask selection over fresh symbolic scores, and the if-converted mask_scores / n3 closure / Float64 N4 kernel against declarative ISO penalty formulas, z3 (BV, LIA, FP)',
+         'z3 shows: every mask closure equals ISO Table 10 for all coordinates 0..176; a requested mask k XORs exactly condition k into encoding-region modules for ALL module values (all 44 sizes); for ALL score values the first pattern with the minimal (Micro: maximal) score is selected, candidates are fresh copies evaluated once each in order with light format/version areas; the score functions equal the ISO penalties on the stated bounded families (Micro all-free; N3 one free row; N1/N2/dark count all-free n<=5 and windows in real symbols; N4 Float64 kernel for every dark count).',
+         'trusted: declarative ISO 7.8.3 formulas in /verif/props/c06.py, layout.py, z3; composition (b)+(c)+(d) is an argument; free-module bounds per line/block as stated in the evidence'),
  'C07': ('3.7', 'symbolic execution of the real find_mode/make_segment on byte strings of free bytes (all lengths up to the bound), path conditions compared with the ISO character-set predicates by z3; symbol-level mode indicator through the C01 reader',
          'For every content length up to the bound and ALL byte values, z3 shows that the automatically chosen mode is the first applicable of numeric/alphanumeric/kanji/byte, that a requested mode is kept iff the content is representable in it and otherwise refused with ValueError (nothing else escapes), that is_mode_supported matches ISO Table 2 for a symbolic version, and that QRCode.mode equals the mode indicator read from the symbol.',
          'trusted: ISO character-set predicates in /verif/props/datapath.py, models of bytes.isdigit / the compiled character class derived from its own pattern, z3'),
